@@ -66,6 +66,8 @@ impl Op {
 /// Spelling choices. `bits` is consumed one decision at a time (deterministic for a case).
 #[derive(Clone, Debug)]
 pub struct Style {
+    /// numeric constants that are written through a named `where` constant
+    pub consts: Vec<(String, f64)>,
     pub bits: u64,
     pub redundant_parens: bool,
     pub symbols: bool,
@@ -76,6 +78,7 @@ pub struct Style {
 impl Style {
     pub fn minimal() -> Style {
         Style {
+            consts: vec![],
             bits: 0,
             redundant_parens: false,
             symbols: false,
@@ -85,6 +88,7 @@ impl Style {
     }
     pub fn from_bits(bits: u64) -> Style {
         Style {
+            consts: vec![],
             bits: bits >> 4,
             redundant_parens: bits & 1 == 1,
             symbols: bits & 2 == 2,
@@ -135,6 +139,20 @@ enum Ctx {
     Prefix,
 }
 
+fn logic_op(op: Op) -> bool {
+    matches!(op, Op::And | Op::Or | Op::Xor | Op::Implies | Op::Iff)
+}
+
+/// In a logic position the constants are the boolean literals (the type checker takes no numbers
+/// there).
+fn logic_literal(e: &SExp) -> Option<&'static str> {
+    match e {
+        SExp::Num(v) if *v == 1.0 => Some("true"),
+        SExp::Num(v) if *v == 0.0 && !v.is_sign_negative() => Some("false"),
+        _ => None,
+    }
+}
+
 fn needs_parens(e: &SExp, ctx: Ctx) -> bool {
     match ctx {
         Ctx::Top => false,
@@ -180,8 +198,12 @@ fn op_text(op: Op, st: &mut Style) -> &'static str {
 }
 
 fn bin(op: Op, a: &SExp, b: &SExp, st: &mut Style) -> String {
-    let l = go(a, Ctx::Left(op), st);
-    let r = go(b, Ctx::Right(op), st);
+    let side = |e: &SExp, ctx: Ctx, st: &mut Style| match (logic_op(op), logic_literal(e)) {
+        (true, Some(lit)) => lit.to_string(),
+        _ => go(e, ctx, st),
+    };
+    let l = side(a, Ctx::Left(op), st);
+    let r = side(b, Ctx::Right(op), st);
     format!("{l} {} {r}", op_text(op, st))
 }
 
@@ -189,8 +211,21 @@ fn list(es: &[SExp], st: &mut Style) -> String {
     es.iter().map(|e| go(e, Ctx::Top, st)).collect::<Vec<_>>().join(", ")
 }
 
+fn logic_list(es: &[SExp], st: &mut Style) -> String {
+    es.iter()
+        .map(|e| match logic_literal(e) {
+            Some(lit) => lit.to_string(),
+            None => go(e, Ctx::Top, st),
+        })
+        .collect::<Vec<_>>()
+        .join(", ")
+}
+
 fn body(e: &SExp, st: &mut Style) -> String {
     match e {
+        SExp::Num(v) if st.consts.iter().any(|c| c.1 == *v && c.1.is_sign_negative() == v.is_sign_negative()) => {
+            st.consts.iter().find(|c| c.1 == *v).unwrap().0.clone()
+        }
         SExp::Num(v) => {
             if *v < 0.0 || (*v == 0.0 && v.is_sign_negative()) {
                 format!("-{}", num_text(-*v))
@@ -201,7 +236,10 @@ fn body(e: &SExp, st: &mut Style) -> String {
         SExp::Var(n) => n.clone(),
         SExp::Neg(x) => format!("-{}", go(x, Ctx::Prefix, st)),
         SExp::Not(x) => {
-            let inner = go(x, Ctx::Prefix, st);
+            let inner = match logic_literal(x) {
+                Some(lit) => lit.to_string(),
+                None => go(x, Ctx::Prefix, st),
+            };
             if st.symbols && st.flip() {
                 format!("!{inner}")
             } else {
@@ -236,14 +274,14 @@ fn body(e: &SExp, st: &mut Style) -> String {
             if es.len() == 2 && !(st.blocks_for_nary && st.flip()) {
                 bin(Op::And, &es[0], &es[1], st)
             } else {
-                format!("all {{ {} }}", list(es, st))
+                format!("all {{ {} }}", logic_list(es, st))
             }
         }
         SExp::Or(es) => {
             if es.len() == 2 && !(st.blocks_for_nary && st.flip()) {
                 bin(Op::Or, &es[0], &es[1], st)
             } else {
-                format!("any {{ {} }}", list(es, st))
+                format!("any {{ {} }}", logic_list(es, st))
             }
         }
         SExp::Xor(a, b) => bin(Op::Xor, a, b, st),
